@@ -65,6 +65,11 @@ fn scripts(quick: bool) -> Vec<(Vec<(usize, Step)>, usize)> {
     // observes: the sync is served with a change still pending inside the lane
     out.push((vec![(1, link("v")), (0, link("v")), (0, cmd("v", "31")), (0, sync("v")), (0, cmd("v", "32"))], 2));
     out.push((vec![(1, link("v")), (0, cmd("v", "33")), (0, sync("v")), (0, setv(&[34])), (0, sync("v")), (0, cmd("v", "35"))], 2));
+    // a link request repeated on an open link, and a sync that overtakes its link, while values are
+    // still waiting for the remote
+    out.push((sequential(&[vec![link("v"), cmd("v", "41"), cmd("v", "42"), link("v"), cmd("v", "43")]]), 1));
+    out.push((sequential(&[vec![sync("v"), link("v"), cmd("v", "44"), link("v")]]), 1));
+    out.push((vec![(0, link("v")), (1, link("v")), (1, cmd("v", "45")), (0, link("v")), (1, cmd("v", "46")), (0, sync("v"))], 2));
     // three remotes: observer, syncer, writer
     out.push((sequential(&[observer.clone(), syncer.clone(), writer.clone()]), 3));
     out.push((sequential(&[writer.clone(), observer.clone(), syncer.clone()]), 3));
